@@ -1401,13 +1401,16 @@ class C05Property:
         high = [n for n in general if is_high(n)]
         boundary = [n for n in general if n.endswith(":min+0") and not is_high(n)]  # equal masses, initial spin 0 / 1/2
         if thorough:
-            chosen = (mixed3 + pick_rng.sample([n for n in mixed4 if cost(n) <= 250], 2)
+            # spin 5/2 is expensive in SymPy whatever its position: one case, at depth 1
+            high_f = [n for n in high if "F" in syn_reactions[n][3] and cost(n) <= 40]
+            high_dt = [n for n in high if "F" not in syn_reactions[n][3] and cost(n) <= 100]
+            chosen = (mixed3 + pick_rng.sample(mixed4, 1)
                       + pick_rng.sample([n for n in general if not is_high(n) and cost(n) <= 250], 6)
-                      + pick_rng.sample([n for n in high if cost(n) <= 250], 4)
+                      + pick_rng.sample(high_dt, 3) + pick_rng.sample(high_f, 1)
                       + pick_rng.sample([n for n in boundary if cost(n) <= 250], 3))
         else:
             chosen = (pick_rng.sample([n for n in mixed3 if cost(n) <= 110], 2)
-                      + pick_rng.sample([n for n in high if cost(n) <= 60], 1)
+                      + pick_rng.sample([n for n in high if cost(n) <= 60 and "F" not in syn_reactions[n][3]], 1)
                       + pick_rng.sample([n for n in boundary if cost(n) <= 60], 1))
         chosen = list(dict.fromkeys(chosen))
         # forced cases: prefer those where a disagreement cannot be mistaken for a known finding, cheapest first
@@ -1628,11 +1631,14 @@ MANIFEST = {
         "from the real model.intensity (amplitude indices with signs, every Wigner factor with its index symbols and "
         "WHICH rotation it is, summed indices with pools, outer pools) equals the model's for 14 corpus cases x "
         "{none, axis-angle, DPD 1,2,3} incl. a 4-body topology, massless spin-1/2 and spin-3/2 synthetic particles, and at "
-        "amplitude level (SpinAlignment.formulate_amplitude) for 399 hand-built single-topology reactions: every assignment "
+        "amplitude level (SpinAlignment.formulate_amplitude) for 555 hand-built single-topology reactions (spins 3/2, 2, "
+        "5/2 in every slot, initial spins 0..7/2, equal-mass pairs, and): every assignment "
         "of {massless 1/2, massless 1, massive 1, massive 1/2, spin 0} to the three slots x every spectator choice, and "
         "every ordered placement of one massless spin-1/2 against one massive spin-1 on three 3-body and two 4-body "
         "topologies; create_spin_range additionally in a seeded 160-call history (interleaved flags, repeated spins) and "
-        "re-probed after the oracle incl. callers that write into the returned list; "
+        "re-probed after the oracle incl. callers that write into the returned list; one builder driven through "
+        "alignment sequences (none/axis/DPD 1-3, define_symbols result cleared by the caller) must give the models of "
+        "fresh builders; canonical skeletons identical across PYTHONHASHSEED values in fresh processes; "
         "SymPy's Rotation.D = phase*d*phase checked symbolically. Oracle: intensities of the five real models at the "
         "same physical events and random couplings (1e-9; quick 6 corpus + 4 seeded mixed placements, thorough 12 corpus "
         "incl. spin 3/2, massive spin 1 at depth 1 and 2, 4-body + all 18 three-body mixed placements + 12 more "
